@@ -462,9 +462,12 @@ def rule_r12_callsites(ctx, prog, rule="R12"):
         n += 1
         args = b.call_arg_exprs(bb)
         root_b, v = up(prog, b, args[1])
-        # peel deref coercions (&Vec → &[usize])
-        while isinstance(v, tuple) and v[0] == "call" and v[1] in ("deref", "as_slice", "as_ref", "borrow") and v[3]:
-            v = strip(v[3][0])
+        # peel deref coercions (&Vec → &[usize]) and resolve captures again
+        for _ in range(6):
+            if isinstance(v, tuple) and v[0] == "call" and v[1] in ("deref", "as_slice", "as_ref", "borrow") and v[3]:
+                root_b, v = up(prog, root_b, v[3][0])
+                continue
+            break
         # v is the vector object in root_b; all &mut uses of it
         muts = []
         group = [root_b] + prog.closures_of(root_b)
@@ -497,7 +500,8 @@ def rule_r12_callsites(ctx, prog, rule="R12"):
                 if nme.startswith("sort") or nme.startswith("dedup"):
                     continue
                 # any other mutation must happen before the sort
-                if not (gb is root_b and root_b.dominates(cbb, sb[1]) and cbb != sb[1]):
+                after = gb is not root_b or any(cbb in root_b.reachable_from(s2) for s2 in root_b.succ(sb[1]))
+                if after:
                     ok = False
                     detail += "; `%s` may run after the sort" % nme
         ctx.ob(rule, "%s/get_many_from_sorted_mut_unchecked/indexes" % short(root_b.key), ok, b.where(bb, "term"),
